@@ -84,6 +84,19 @@ def slow_scenario():
         {"a": "send", "i": 2, "tag": 1, "kind": "req", "old": 0}, {"a": "await_enter", "i": 2}, {"a": "release", "i": 2}, {"a": "await_reply", "k": 2}]}
 
 
+def many_inflight_scenario(prop):
+    """70 requests are being handled (more than any plausible bound on workers); a flush of one of them and a fresh request
+    must still be answered while the others stay blocked; then the freed tag is reused."""
+    st = []
+    for i in range(1, 71):
+        st += [{"a": "send", "i": i, "tag": i, "kind": "req", "old": 0}, {"a": "await_enter", "i": i}]
+    st += [{"a": "send", "i": 71, "tag": 71, "kind": "flush", "old": 8}, {"a": "must_reply", "k": 1, "kind": prop},
+           {"a": "send", "i": 72, "tag": 8, "kind": "req", "old": 0}, {"a": "await_enter", "i": 72}, {"a": "release", "i": 72},
+           {"a": "must_reply", "k": 2, "kind": prop}]
+    st += [{"a": "release", "i": i} for i in range(1, 71)]
+    return {"name": "many-inflight-then-flush", "steps": st}
+
+
 def kinds_scenario():
     steps = []
     for i in range(1, 9):
@@ -166,6 +179,7 @@ def _run(pid, tier, classes, families, extra=None):
         scs += [behaviour_to_scenario("sim-nofault-%d" % i, b, 2 if q else 3) for i, b in enumerate(behs)]
         scs.append(kinds_scenario())
         scs.append(slow_scenario())
+        scs.append(many_inflight_scenario(pid))
     if "fault" in families:
         behs, _ = simulate("ServeSim_fault.cfg", 150 if q else 1500, 45)
         scs += [behaviour_to_scenario("sim-fault-%d" % i, b, 1 if q else 2) for i, b in enumerate(behs)
